@@ -55,6 +55,17 @@ func (in *vfC04Inst) expected(local bool, label string) string {
 	// inline stage (everything is inline for a local publication): stops at the first Reject
 	for _, v := range in.vals {
 		if v.Inline || local {
+			if !local {
+				// a remote message whose first inline validator was never invoked never entered validation: the
+				// validation queue was full ("validation is throttled")
+				in.g.vmu.Lock()
+				calls := in.g.valCalls[v.Name+"|"+label]
+				in.g.vmu.Unlock()
+				if calls == 0 {
+					in.count("message_refused_by_full_validation_queue")
+					return "T"
+				}
+			}
 			x := verdictOf(v)
 			if x == "T" {
 				x = v.Verdict // throttles only apply to the asynchronous stage
@@ -221,7 +232,11 @@ func (in *vfC04Inst) Apply(ev string, judge bool) string {
 			}
 			if want == "R" {
 				for p, n := range copies {
-					lo[p]++
+					// with a bounded validation queue a duplicate copy may have been refused at the door (throttled:
+					// no penalty for that copy), so only a sole forwarder is certain to have been judged
+					if g.cfg.ValQueue == 0 || len(copies) == 1 {
+						lo[p]++
+					}
 					hi[p] += n
 				}
 			}
@@ -354,6 +369,15 @@ func vfC04ThrottleScenarios(thorough bool) []*vfGWScenario {
 			vals2[len(vals2)-1].Throttle = 0
 			shapes = append(shapes, shape{fmt.Sprintf("global-limit[%s,%s]", other, slow), 1, vals2})
 		}
+	}
+	// a full validation queue: one worker parked in an inline validator, a queue of one
+	for _, vd := range []string{"A", "R"} {
+		q3 := map[string]vfMsgSpec{"m1": {Topic: "t", Author: "x", Seq: 1, Size: 8}, "m2": {Topic: "t", Author: "x", Seq: 2, Size: 8}, "m3": {Topic: "t", Author: "x", Seq: 3, Size: 8}}
+		vals := []vfValCfg{{Name: "V1", Topic: "t", Inline: true, Gated: true, Verdict: vd}}
+		out = append(out, &vfGWScenario{Name: "throttle-queue-full[" + vd + "]",
+			Cfg: vfGWCfg{Router: "gossip", Peers: peers, Topics: []string{"t"}, Params: "d2", Scoring: true, ScoreTopics: true, SeenTTL: 3600, Validators: vals, Workers: 1, ValQueue: 1,
+				Prefix: []string{"conn:a", "conn:b", "conn:c", "sub:a:t", "sub:b:t", "sub:c:t", "join:t"}},
+			Alphabet: []string{"pub:a:m1", "pub:a:m2", "pub:b:m3", "pub:b:m1", "vrel:V1:m1:" + vd, "vrel:V1:m2:" + vd, "vrel:V1:m3:" + vd}, Msgs: q3, Depth: 6})
 	}
 	for _, sh := range shapes {
 		alphabet := []string{"pub:a:m1", "pub:b:m2", "pub:b:m1", "lpub:t:p1"}
